@@ -1,11 +1,20 @@
 #!/bin/sh
-# Re-runs the quick check of its property against every seeded change (applies each to /repo and reverts).
-# Output: one line per seed: <id> <property> exit=<code>
+# Re-runs, for every seeded change, the quick check that is recorded as catching it (meta.json "check",
+# default: its "property") - applies each to /repo and reverts. One line per seed: <id> == <Cxx> exit=<code>.
+# A run is cut off after SEED_TIMEOUT seconds (default 1500; exit=124 then).
+# Needs /repo and /verif/harness to itself while it runs (about an hour on an idle 16-core machine).
 cd /verif
 for d in seeded/*/; do
   id=$(basename "$d")
   [ -f "$d/meta.json" ] || continue
-  prop=$(python3 -c "import json;print(json.load(open('$d/meta.json'))['property'])")
-  out=$(sh tools/try_patch.sh /verif/$d/patch.diff $prop 2>&1 | grep "^==" | head -1)
+  prop=$(python3 -c "import json;m=json.load(open('$d/meta.json'));print(m.get('check',m['property']))")
+  out=$(timeout ${SEED_TIMEOUT:-1500} sh tools/try_patch.sh /verif/$d/patch.diff $prop 2>&1 | grep -E "^==|does not apply|not clean" | head -1)
+  if [ -z "$out" ]; then
+    out="== $prop exit=124 (cut off)"
+    pkill -f "gosym check --property $prop" 2>/dev/null
+    sleep 2
+    git -C /repo checkout -- . 2>/dev/null
+    for e in /tmp/try_patch_ev.*; do [ -d "$e" ] && cp -a "$e"/. /verif/evidence/ && rm -rf "$e"; done
+  fi
   echo "$id $out"
 done
